@@ -78,13 +78,15 @@ def _big_table(rng, tier):
     if kind == 'random':
         n, m = (rng.randint(18, 26), rng.randint(12, 16)) if tier == 'quick' else (rng.randint(25, 40), rng.randint(15, 25))
         return n, m, [sum((rng.random() < 0.5) << j for j in range(m)) for _ in range(n)]
-    n = rng.choice([40, 80, 120, 200, 300])     # chain: deep, thin lattice
+    n = rng.choice([40, 80, 120] if tier == 'quick' else [80, 120, 200, 300])     # chain: deep, thin lattice (Lindig is cubic here)
     return n, n, [(1 << (i + 1)) - 1 for i in range(n)]
 
 
-def generate(rng, seed, run, tier, focus='C11'):
+def generate(rng, seed, run, tier, focus='C11', xmode=False):
     from .world_live import gen_table
     n_peers = rng.choice([0, 1, 1, 2]) if focus == 'C11' else rng.choice([0, 0, 1, 1, 2])
+    if xmode:
+        n_peers = 0
     twin = n_peers == 2 and rng.random() < 0.5
     big = focus == 'C11' and rng.random() < (0.03 if tier == 'quick' else 0.08)
     cfg = {'focus': focus, 'n_nodes': n_peers + 1,
@@ -93,7 +95,8 @@ def generate(rng, seed, run, tier, focus='C11'):
            'n_events': rng.randint(4, 24 if tier == 'quick' else 50),
            'label_cls': rng.choice(['plain', 'plain', 'punct', 'tablebad', 'nonascii', 'csvonly'])
            if focus == 'C12' else rng.choice(['plain', 'plain', 'punct', 'nonascii', 'csvonly']),
-           'peer_env': rng.choice([{}, {}, {'LC_ALL': 'C'}, {'PYTHONUTF8': '1'}, {'LC_ALL': 'C', 'PYTHONUTF8': '0'}])}
+           'peer_env': rng.choice([{}, {}, {'LC_ALL': 'C'}, {'PYTHONUTF8': '1'}, {'LC_ALL': 'C', 'PYTHONUTF8': '0'}]),
+           'xmode': bool(xmode)}
     if twin:
         cfg['node_seeds'] = [cfg['node_seeds'][0]] * 2
     labels, events = [], []
@@ -364,6 +367,7 @@ class Storage:
     def run(self):
         rec = self.rec
         self.dir = tempfile.mkdtemp(prefix='verif-s-')
+        rec.scrub.append(self.dir)
         self.epoch = {}
         try:
             for index, ev in enumerate(self.plan['events']):
@@ -481,6 +485,7 @@ class Storage:
                   lambda: f'todict container types {r.get("types")}')
         if with_lat:
             info['has_lat'] = True
+        rec.log('todict ' + (core.sha(canon(r['dict']))[:16] if r['ok'] else str(r)))
         d = want if not r['ok'] else r['dict']
         if raw and perm:
             d = storeutil.permute_dict(d, perm)
@@ -524,7 +529,8 @@ class Storage:
                 rec.probe('overwrite_longer_file')
         self.files[target] = {'form': 'json', 'li': info['li'], 'fca': info['fca'], 'has_lat': not ign,
                               'permuted': False, 'writer_node': node, 'writer_epoch': self.epoch.get(node, 0)}
-        rec.log('ok')
+        with open(p, 'rb') as fh:
+            rec.log('ok ' + core.sha(fh.read().decode('utf-8'))[:16])
 
     def ev_json_r(self, node, target, pathkind, ign, req, raw, dst):
         rec = self.rec
@@ -582,7 +588,8 @@ class Storage:
             rec.fault('path_overwrite')
         self.files[target] = {'form': 'literal', 'li': info['li'], 'fca': info['fca'], 'has_lat': info['has_lat'],
                               'permuted': False, 'writer_node': node, 'writer_epoch': self.epoch.get(node, 0)}
-        rec.log('ok')
+        with open(p, 'rb') as fh:
+            rec.log('ok ' + core.sha(fh.read().decode('utf-8'))[:16])
 
     def ev_lit_r(self, node, target, mode, dst):
         rec = self.rec
@@ -737,7 +744,7 @@ class Storage:
         self.files[target] = {'form': frmat, 'li': info['li'], 'fca': info['fca'], 'enc': enc, 'kwargs': kwargs,
                               'permuted': False, 'has_lat': False, 'writer': 'lib',
                               'writer_node': node, 'writer_epoch': self.epoch.get(node, 0)}
-        rec.log('ok')
+        rec.log('ok ' + core.sha(text)[:16])
 
     def ref_read_check(self, frmat, text, info, kwargs, what):
         rec = self.rec
